@@ -225,3 +225,37 @@ Fixpoint ff_res_chain (n_iregs n_xregs n_ld : nat) (rs : list rty) : option (lis
       end
   end.
 Definition ff_results (rs : list rty) := ff_res_chain 0 0 0 rs.
+
+(* ------------------------------------------------------------------ ff-interface cache key *)
+(* mir-interp.c: one trampoline is generated per distinct (nres, nargs, arg_vars_num, res_types,
+   arg type, arg size for MIR_T_BLK..MIR_T_RBLK) and reused for every call insn with an equal key
+   (ff_interface_eq).  MIR_type_t codes as in mir.h. *)
+Definition ity_code (t : ity) : Z :=
+  match t with I8 => 0 | U8 => 1 | I16 => 2 | U16 => 3 | I32 => 4 | U32 => 5 | I64 => 6 | U64 => 7 | Pt => 11 end.
+Definition aty_code (a : aty) : Z :=
+  match a with AInt t => ity_code t | AF => 8 | AD => 9 | ALD => 10 | ABlk k _ => 12 + Z.of_nat k | ARblk _ => 17 end.
+Definition rty_code (r : rty) : Z :=
+  match r with RInt t => ity_code t | RF => 8 | RD => 9 | RLD => 10 end.
+Definition aty_size (a : aty) : Z := match a with ABlk _ s | ARblk s => s | _ => 0 end.
+Definition all_blk_type_p (c : Z) : bool := (12 <=? c) && (c <=? 17).
+
+Definition arg_desc_eq (sized_p : Z -> bool) (a b : aty) : bool :=
+  (aty_code a =? aty_code b) && (if sized_p (aty_code a) then aty_size a =? aty_size b else true).
+
+Fixpoint forallb2 {A} (f : A -> A -> bool) (l1 l2 : list A) : bool :=
+  match l1, l2 with
+  | [], [] => true
+  | x :: r1, y :: r2 => f x y && forallb2 f r1 r2
+  | _, _ => false
+  end.
+
+(* a call site as the cache sees it: results, actual argument descriptors, number of fixed args *)
+Record call_sig := { cs_res : list rty; cs_args : list aty; cs_arg_vars_num : nat }.
+
+Definition ff_interface_eq_gen (sized_p : Z -> bool) (i1 i2 : call_sig) : bool :=
+  Nat.eqb (length (cs_res i1)) (length (cs_res i2))
+  && Nat.eqb (length (cs_args i1)) (length (cs_args i2))
+  && Nat.eqb (cs_arg_vars_num i1) (cs_arg_vars_num i2)
+  && forallb2 (fun a b => rty_code a =? rty_code b) (cs_res i1) (cs_res i2)
+  && forallb2 (arg_desc_eq sized_p) (cs_args i1) (cs_args i2).
+Definition ff_interface_eq := ff_interface_eq_gen all_blk_type_p.
